@@ -247,7 +247,8 @@ func (g *gen) treeCreateDeferred() *opSpec {
 	if snapAt >= 0 && variant == "full" {
 		snaps = 1
 	}
-	return &opSpec{
+	var op *opSpec
+	op = &opSpec{
 		kind: "tree-create-deferred", desc: fmt.Sprintf("tree-create-deferred t=%s n=%d %s", g.rn.fx.in.get(id), len(raws), variant), trees: []string{id},
 		run: func(w *World) error {
 			t, ok := w.trees[id]
@@ -264,12 +265,16 @@ func (g *gen) treeCreateDeferred() *opSpec {
 			}
 			t.Lock()
 			defer t.Unlock()
-			_, err := t.AddRawChanges(ctx, payload)
+			res, err := t.AddRawChanges(ctx, payload)
+			if err == nil && w == g.rn.main {
+				op.capture(res)
+			}
 			return err
 		},
 		after: func() { g.trees = append(g.trees, id); g.snaps[id] = snaps },
 		model: &modelOp{kind: "tree-create-deferred", tree: id},
 	}
+	return op
 }
 
 // --- local add / snapshot add
@@ -282,7 +287,8 @@ func (g *gen) localAdd(id string, snapshot bool) *opSpec {
 	if snapshot {
 		kind = "snapshot-add"
 	}
-	return &opSpec{
+	var op *opSpec
+	op = &opSpec{
 		kind: kind, desc: fmt.Sprintf("%s t=%s", kind, g.rn.fx.in.get(id)), trees: []string{id},
 		run: func(w *World) error {
 			t, err := w.tree(id)
@@ -291,7 +297,10 @@ func (g *gen) localAdd(id string, snapshot bool) *opSpec {
 			}
 			t.Lock()
 			defer t.Unlock()
-			_, err = t.AddContent(ctx, content)
+			res, err := t.AddContent(ctx, content)
+			if err == nil && w == g.rn.main {
+				op.capture(res)
+			}
 			return err
 		},
 		after: func() {
@@ -301,6 +310,15 @@ func (g *gen) localAdd(id string, snapshot bool) *opSpec {
 		},
 		model: &modelOp{kind: kind, tree: id},
 	}
+	return op
+}
+
+func (op *opSpec) capture(res objecttree.AddResult) {
+	op.added = op.added[:0]
+	for _, c := range res.Added {
+		op.added = append(op.added, c.Id)
+	}
+	op.heads = append([]string{}, res.Heads...)
 }
 
 var errRejected = errors.New("verif: validator rejects")
@@ -321,7 +339,10 @@ func (g *gen) rejectedAdd(id string, snapshot bool) *opSpec {
 		}
 		t.Lock()
 		defer t.Unlock()
-		_, err = t.AddContentWithValidator(ctx, content, v)
+		res, err := t.AddContentWithValidator(ctx, content, v)
+		if err == nil && w == g.rn.main {
+			op.capture(res)
+		}
 		return err
 	}
 	op.rejectFirst = func(w *World) error {
@@ -397,7 +418,8 @@ func (g *gen) remoteFrom(fp forkPoint, id string, kind string) *opSpec {
 	}
 	payload := objecttree.RawChangesPayload{NewHeads: heads, RawChanges: raws, SnapshotPath: path}
 	var mode objecttree.Mode
-	return &opSpec{
+	var op *opSpec
+	op = &opSpec{
 		kind: kind, desc: fmt.Sprintf("%s t=%s n=%d %s", kind, g.rn.fx.in.get(id), len(raws), variant), trees: []string{id},
 		run: func(w *World) error {
 			t, err := w.tree(id)
@@ -409,6 +431,7 @@ func (g *gen) remoteFrom(fp forkPoint, id string, kind string) *opSpec {
 			res, err := t.AddRawChanges(ctx, payload)
 			if err == nil && w == g.rn.main {
 				mode = res.Mode
+				op.capture(res)
 			}
 			return err
 		},
@@ -421,7 +444,8 @@ func (g *gen) remoteFrom(fp forkPoint, id string, kind string) *opSpec {
 			if g.r().Chance(25) {
 				// the same batch once more: everything is known already
 				g.queue = append(g.queue, func() *opSpec {
-					return &opSpec{
+					var dup *opSpec
+					dup = &opSpec{
 						kind: "remote-dup", desc: "remote-dup t=" + g.rn.fx.in.get(id), trees: []string{id},
 						run: func(w *World) error {
 							t, err := w.tree(id)
@@ -430,16 +454,21 @@ func (g *gen) remoteFrom(fp forkPoint, id string, kind string) *opSpec {
 							}
 							t.Lock()
 							defer t.Unlock()
-							_, err = t.AddRawChanges(ctx, payload)
+							res, err := t.AddRawChanges(ctx, payload)
+							if err == nil && w == g.rn.main {
+								dup.capture(res)
+							}
 							return err
 						},
 						model: &modelOp{kind: "remote-dup", tree: id},
 					}
+					return dup
 				})
 			}
 		},
 		model: &modelOp{kind: kind, tree: id},
 	}
+	return op
 }
 
 // --- ACL record add: the owner creates an invite record; AddRawRecord applies and persists it
